@@ -21,10 +21,60 @@ ZERO_ONE_D = ("TimeStamp", "Point", "MultiPoint", "LineString", "MultiLineString
 AREAL = ("TimeInterval", "BoundingBox", "Polygon", "MultiPolygon")
 
 
-def build(spec: dict):
+_RNG = None          # set by set_rng(): when present, build() varies HOW the object is constructed
+PATHS_USED: dict = {}
+
+
+def set_rng(rng) -> None:
+    global _RNG
+    _RNG = rng
+
+
+def build(spec: dict, how: str = None):
+    """Materialise a spec through the library. With an RNG installed (set_rng) about a third of the objects
+    come into being the way application code produces them: through the constructor, from JSON, as a deep copy /
+    pickle round trip, or by editing a copy of another, already used, geometry (model_copy(update=...)) — the
+    properties quantify over geometries, not over one way of making them."""
     from soundevent import data
 
-    return data.geometry_validate(spec, mode="dict")
+    if how is None and _RNG is not None and _RNG.random() < 0.35:
+        how = _RNG.choice(["constructor", "json", "deepcopy", "pickle", "derived", "derived", "assigned"])
+    how = how or "dict"
+    PATHS_USED[how] = PATHS_USED.get(how, 0) + 1
+    g = data.geometry_validate(spec, mode="dict")
+    if how == "dict":
+        return g
+    try:
+        if how == "constructor":
+            return type(g)(coordinates=g.coordinates)
+        if how == "json":
+            return data.geometry_validate(g.model_dump_json(), mode="json")
+        if how == "deepcopy":
+            import copy
+
+            return copy.deepcopy(g)
+        if how == "pickle":
+            import pickle
+
+            return pickle.loads(pickle.dumps(g))
+        if how in ("derived", "assigned"):
+            from soundevent.geometry import operations as O
+
+            other = data.geometry_validate(random_geom(_RNG or __import__("random").Random(0), spec["type"], "dyadic"), mode="dict")
+            try:
+                O.compute_bounds(other)
+                O.buffer_geometry(other, 0.01, 10.0)
+                other._repr_html_()
+                hash(repr(other))
+            except Exception:
+                pass
+            if how == "derived":
+                return other.model_copy(update={"coordinates": g.coordinates})
+            other.coordinates = g.coordinates      # attribute assignment on a used object
+            return other
+    except Exception:
+        return g
+    return g
 
 
 def build_derived(spec: dict, rng):
@@ -33,8 +83,8 @@ def build_derived(spec: dict, rng):
     other object must not follow the copy."""
     from soundevent.geometry import operations as O
 
-    target = build(spec)
-    other = build(random_geom(rng, spec["type"], "dyadic"))
+    target = build(spec, how="dict")
+    other = build(random_geom(rng, spec["type"], "dyadic"), how="dict")
     try:
         O.compute_bounds(other)
         hash(repr(other))
@@ -42,6 +92,13 @@ def build_derived(spec: dict, rng):
     except Exception:
         pass
     return other.model_copy(update={"coordinates": target.coordinates})
+
+
+def edit_in_place(geom, rng) -> None:
+    """Give an existing geometry object other coordinates by attribute assignment (what an interactive
+    annotation tool does when a box is dragged). The new coordinates are valid and in normal form."""
+    other = build(random_geom(rng, geom.type, rng.choice(["dyadic", "realistic"])), how="dict")
+    geom.coordinates = other.coordinates
 
 
 def to_spec(geom) -> dict:
